@@ -81,13 +81,17 @@ CHECKS = [
          note='quadrature accuracy of the real operators and the complex-erf closed forms of the Smooth problems are not '
               'covered by theorems; translator patterns trusted'),
     dict(id='C01', design_ref='DESIGN.md section 6 / C01', category='proof',
-         technique='Lean 4 theorems on the panel recursion / request / generated kernels + exact execution of the real bilform (Q numbers, stand-in special functions) + formula translator',
+         technique='Lean 4 theorems on the panel recursion / request / generated kernels; control flow of __integrate / bilform regenerated from source each run (translate/panels.py) and proved equal to the model; exact execution of the real bilform (Q numbers, stand-in special functions); formula translator',
          text='Partial. Proved for all rational inputs: the panel recursion of __integrate is total on grid-aligned inputs, '
               'its panels tile the parameter rectangle, each singular rule sits exactly on the singular set (diagonal, '
               'touching corner, seam), the variable swap feeds the right parametrisation, derived rules are exact on '
               'polynomials (C15); for the formulas regenerated from the Python source on every run: four-term structure, '
               "F' = g and g' = -G under the law of Ei, the closed forms satisfy fint_2/3/4 = Psi-combinations. Tie: the real "
-              'bilform (both paths) run in exact rational arithmetic equals the model on every position class. NOT proved: '
+              'bilform (both paths) run in exact rational arithmetic equals the model on every position class; in addition the '
+              'decision structure of __integrate, bilform, evaluate, the worker column and the matrix loops is translated from '
+              'src/single_layer.py on every run (Gen/Panels.lean) and Props/PanelsTie.lean proves it equal to the hand model '
+              'for all inputs (gen_panels_eq, gen_bilform_eq, ...), so every theorem transfers to the generated-from-source '
+              'functions. NOT proved: '
               'that the fixed order-12 rules reach 1e-7 on the heat kernel -- searched against an independent reference.',
          note='special functions enter as parameters with stated laws; accuracy of fixed rules on non-polynomial integrands and binary64 rounding are outside every theorem'),
     dict(id='C04', design_ref='DESIGN.md section 6 / C04', category='proof',
@@ -100,7 +104,7 @@ CHECKS = [
               'Positivity beyond rounding in binary64 is search-only (partial for that clause).',
          note='cancellation in the four-term formula in binary64 is not modelled'),
     dict(id='C07', design_ref='DESIGN.md section 6 / C07', category='proof',
-         technique='Lean 4 theorems on the evaluation plan and the closed-form variant + exact execution of the real evaluate / evaluate_exact',
+         technique='Lean 4 theorems on the evaluation plan and the closed-form variant; evaluate regenerated from source each run and proved equal to the model (PanelsTie gen_evaluate_eq); exact execution of the real evaluate / evaluate_exact',
          text='Partial. Proved: the branch taken by evaluate (zero iff t <= start; in-element split graded towards the '
               'singular point; otherwise the point set graded towards the seam-aware nearer end point; end-point cases), the '
               'inline kernels equal the generated time-integrated kernel, evaluate_exact equals steval_1/steval_2 = gint '
@@ -124,15 +128,25 @@ CHECKS = [
               'Invariance under motions of the curve (which change the panel decomposition) is searched to 1e-7 scaled.',
          note='rotation/reflection invariance for the true kernel holds only up to quadrature error'),
     dict(id='C08', design_ref='DESIGN.md section 6 / C08', category='proof',
-         technique='Lean 4 theorems (parametrisations, Jacobians, linearity, kernel branches, rule exactness) + polynomial-kernel execution of the real linform',
-         text='Partial. Proved: for the cell having the boundary segment as an edge the squared distance handed to the '
+         technique='Lean 4 executable model of InitialOperator.linform with theorems (load = exact integral for polynomial integrands on every dyadic boundary segment of every reachable domain mesh; linearity; time additivity) + exact rational correspondence of the real linform + polynomial-kernel execution',
+         text='Partial. Model/InitialPotential.lean models __init__ and linform statement by statement (targeted domain mesh, '
+              'cell classification in code order with its assertions, parametrisations, Jacobians, exact fsum; exp1, pi, the '
+              '1-D rule and u0 are parameters; the time kernel is the generated ip_tik). Proved for all inputs: linform is '
+              'linear in u0 (error cases included) and additive under splitting the time interval (for every stand-in '
+              'kernel); linform_eq_integral_poly: for rules exact to degree n and polynomial integrands of degree <= n-2 the '
+              'load equals the exact integral over domain x segment and every per-cell value equals the cell integral, for '
+              'EVERY dyadic boundary segment (either orientation) of EVERY reachable domain mesh of the unit square and the '
+              'L-shape (boxInt_is_integral identifies the value with Mathlib interval integrals); additivity in space follows; '
+              'duffyId3_poly_exact (new) and the x<->z symmetry of the touching rule. Tie: the REAL linform on Fractions '
+              'equals the model textually (load and per-cell values, all cell classes, both time branches incl. a = 2^-30, '
+              'assertion tags). Earlier results: for the cell having the boundary segment as an edge the squared distance handed to the '
               'kernel is h^2((x-y)^2+z^2) (so the singular line of the Duffy-identical rule is the singular set), the '
               'vertex-touching parametrisations meet in the shared vertex only, Jacobians h^3 resp. diam^2 (d-c), the load is '
               'linear in u0, both branches of the generated time kernel, exactness of the 3-D Duffy rules on polynomials '
               '(C15). Tie: the REAL linform with exp1 replaced by polynomials equals the closed-form polynomial integral over '
               'domain x segment to 1e-10 for dyadic segments on all three domains (cell classes, Jacobians, tiling). The '
               '1e-5 accuracy for the true kernel is searched against the closed-form potentials.',
-         note='accuracy for the non-polynomial kernel E1 is not a theorem; the tie is in floats (domain mesh vertices are floats) with tolerance 1e-10'),
+         note='accuracy for the non-polynomial kernel E1 is not a theorem (searched, 1e-5); set iteration order of leaf_elements is not modelled (contributions compared sorted by element index); pi-square tied with the stand-in pi := 25/8'),
     dict(id='C14', design_ref='DESIGN.md section 6 / C14', category='proof',
          technique='Lean 4 theorems (reduction of the seminorm rules to moment functionals, rule-independence under exact moments, invariances) + exact execution of the real Slobodeckij class on rational stand-in rules',
          text='Proof in exact arithmetic for every rule and interval: non-negativity, zero on constants, quadratic scaling, '
